@@ -1,7 +1,8 @@
 // Multi-vCPU harness for C08: the real photon::WorkPool (its own worker OS threads), submitters on a photon vCPU and on
 // plain OS threads.
 //   pool <nvcpu> <mode -1|0|N> <ring_size>
-//   sub <name> <photon|os> ops...      ops: c<id>:<body> (call) | a<id>:<body> (async_call) | y | s<us>     body: e | y<n> | s<us>
+//   sub <name> <photon|os> ops...      ops: c<id>:<body> (call) | a<id>:<body> (async_call) | y | s<us> | i<sub> (interrupt that submitter if it is blocked in call())     body: e | y<n> | s<us>
+//   pool ... <joiners>: that many extra OS threads join the pool with join_current_vcpu_into_workpool()
 //   run
 // Events with a global atomic stamp:  submit <k> <c|a> <sub> | begin <k> | end <k> | callret <k> | deleted <k> |
 //   destroy_begin | destroy_end | ; the pool is destroyed after every submitter has finished (async tasks may still be queued)
@@ -39,7 +40,7 @@ static void body(int k, const std::string& b) {
 }
 struct AsyncTask { int k; std::string b; AsyncTask(int k_, std::string b_) : k(k_), b(b_) {} ~AsyncTask() { ev(DELETED, k); } void operator()() { body(k, b); } };
 
-struct Sub { std::string name; bool os; std::vector<std::string> ops; };
+struct Sub { std::string name; bool os; std::vector<std::string> ops; std::atomic<photon::thread*> incall{nullptr}; Sub() {} Sub(const Sub& o) : name(o.name), os(o.os), ops(o.ops) {} };
 static std::vector<Sub> subs; static WorkPool* pool;
 static std::atomic<int> finished{0};
 
@@ -47,8 +48,9 @@ template <class Ctx> static void run_sub(Sub& s, bool photon_env) {
     for (auto& op : s.ops) {
         char c = op[0];
         if (c == 'c' || c == 'a') { auto colon = op.find(':'); int k = atoi(op.substr(1, colon - 1).c_str()); std::string b = op.substr(colon + 1);
-            if (c == 'c') { ev(SUBMIT_C, k); pool->call<Ctx>([k, b] { body(k, b); }); ev(CALLRET, k); }
+            if (c == 'c') { ev(SUBMIT_C, k); if (photon_env) s.incall = CURRENT; pool->call<Ctx>([k, b] { body(k, b); }); s.incall = nullptr; ev(CALLRET, k); }
             else { ev(SUBMIT_A, k); pool->async_call(new AsyncTask(k, b)); } }
+        else if (c == 'i') { for (auto& o : subs) if (o.name == op.substr(1)) { auto th = o.incall.load(); if (th && photon_env) thread_interrupt(th, EINTR); } }   // a caller blocked in call() is interrupted: call() must keep waiting
         else if (c == 'y') { if (photon_env) thread_yield(); else std::this_thread::yield(); }
         else if (c == 's') { auto us = strtoul(op.c_str() + 1, 0, 10); if (photon_env) thread_usleep(us); else usleep(us); }
     }
@@ -67,19 +69,23 @@ static int run_program(const std::vector<std::string>& lines) {
     signal(SIGALRM, on_alarm); alarm(20); signal(SIGSEGV, on_segv); signal(SIGABRT, on_segv);
     set_log_output(log_output_null);
     logbuf = new Rec[MAXLOG];
-    int nv = 1, mode = -1; size_t ring = 65536;
+    int nv = 1, mode = -1, joiners = 0; size_t ring = 65536;
     for (auto& l : lines) {
         std::istringstream is(l); std::string w; is >> w;
-        if (w == "pool") is >> nv >> mode >> ring;
+        if (w == "pool") { is >> nv >> mode >> ring; if (!(is >> joiners)) joiners = 0; }
         else if (w == "sub") { Sub s; std::string kind; is >> s.name >> kind; s.os = kind == "os"; std::string o; while (is >> o) s.ops.push_back(o); subs.push_back(s); }
     }
     photon::init(INIT_EVENT_EPOLL, INIT_IO_NONE);
     pool = new WorkPool(nv, INIT_EVENT_EPOLL, INIT_IO_NONE, mode, ring);
+    std::vector<std::thread> jo;
+    for (int j = 0; j < joiners; ++j) jo.emplace_back([] { photon::init(INIT_EVENT_EPOLL, INIT_IO_NONE); pool->join_current_vcpu_into_workpool(); photon::fini(); });
+    while (pool->get_vcpu_num() < nv + joiners) thread_usleep(200);
     std::vector<std::thread> os;
     for (auto& s : subs) { if (s.os) os.emplace_back([&s] { run_sub<StdContext>(s, false); }); else thread_create(&photon_sub, &s); }
     while (finished.load() < (int)subs.size()) thread_usleep(500);
     for (auto& t : os) t.join();
     ev(DBEGIN); delete pool; ev(DEND);
+    for (auto& t : jo) t.join();
     dump_log();
     printf("result done\n"); fflush(stdout);
     _exit(0);
